@@ -1,7 +1,9 @@
 /-
-Line-protocol driver for the record model and the C19 monitor.
+Line-protocol driver for the record model and the C19 / C12 monitors.
   model   <ops>            : one observation line per op line
   monitor C19 <ops> <obs>  : evaluates Spec.C19 on the implementation's observation stream
+  monitor C12 <ops> <obs>  : evaluates Spec.C12Record on the `export` / `reimport` lines (and the reads
+                             after a re-import) of the implementation's observation stream
 
 ops:
   record reset addrs=A0:<bech32>,A1:<bech32>,...
@@ -11,8 +13,13 @@ ops:
   record query id=<hex>
   record query_all
   record next_block
+  record export        (C12) real ExportGenesis + ValidateGenesis; answered from `RecordGenesis`
+        obs: ok <counts> validate=<ok|err|panic> grecs=<records of the document in its own order>
+  record reimport      (C12) export, wipe the module store, InitGenesis; the history continues on the
+        imported store.  obs: <ok|panic> <counts> same=<0|1> recs=<dump after>
 -/
 import Irismod.Spec.C19
+import Irismod.Spec.C12_Record
 
 namespace Driver.Record
 open Irismod Irismod.Record Irismod.Line
@@ -44,7 +51,7 @@ def parseMsg (tbl : Table) (s : String) : Option Msg :=
   | _ => none
 
 def idOfHex (h : String) : Option Id := (bytesOfHex h).map (·.data)
-def hexOfId (i : Id) : String := hexOfBytes (ByteArray.mk i)
+def hexOfId (i : Id) : String := Spec.C19.hexId i
 
 def parseOp (tbl : Table) (t : List String) : Option Op :=
   match t with
@@ -97,6 +104,15 @@ def dump (s : State) : String :=
   let es := sortStrings (s.recs.map fun (i, r) => s!"{hexOfId i}={showRec r}")
   if es.isEmpty then "-" else joinWith ";" es
 
+def showRecs (rs : List Rec) : String :=
+  if rs.isEmpty then "-" else joinWith ";" (rs.map showRec)
+
+def parseRecs (s : String) : Option (List Rec) :=
+  if s = "-" then some [] else (s.splitOn ";").mapM parseRec
+
+/-- the harness's canonical state string: counts and dump -/
+def stateStr (s : State) : String := s!"{counts s} recs={dump s}"
+
 def resWord : Except Err State → String
   | .ok _ => "ok"
   | .error (.reject _) => "rej"
@@ -109,6 +125,23 @@ def modelLine (tbl : Table) (s : State) (line : String) : Table × State × Stri
     match parseTable r with
     | some tb => (tb, {}, "ok " ++ counts {})
     | none => (tbl, s, "bad-op")
+  | ["record", "export"] =>
+    -- the real `ExportGenesis` document and the verdict of the real `ValidateGenesis` on it
+    let g := RecordGenesis.exportGenesis s
+    let v := match RecordGenesis.validateGenesis g with
+      | .ok _ => "ok"
+      | .error (.reject _) => "err"
+      | .error (.panic _) => "panic"
+    (tbl, s, s!"ok {counts s} validate={v} grecs={showRecs g.records}")
+  | ["record", "reimport"] =>
+    -- export, wipe the whole module store (records and counter), `InitGenesis` on the empty store;
+    -- a panicking `InitGenesis` is discarded with its cache
+    match RecordGenesis.importGenesis (RecordGenesis.exportGenesis s) with
+    | .ok s' =>
+      let same := if stateStr s == stateStr s' then 1 else 0
+      (tbl, s', s!"ok {counts s'} same={same} recs={dump s'}")
+    | .error (.panic _) => (tbl, s, s!"panic {counts s} same=1 recs={dump s}")
+    | .error (.reject _) => (tbl, s, s!"rej {counts s} same=1 recs={dump s}")
   | _ =>
     match parseOp tbl t with
     | none => (tbl, s, "bad-op")
@@ -139,14 +172,16 @@ def runModel (ops : Array String) : IO Unit := do
     tbl := tb
     out.putStrLn o
 
+/-- monitor: parses each op / observation line and evaluates `Spec.C19.stepFails` (proved to return
+`[]` on every model step: Proofs/RecordMonitor.lean); the memory carried from line to line is
+`Spec.C19.Mon`, advanced by `Spec.C19.advance` -/
 def runMonitor (ops obs : Array String) : IO Unit := do
   let out ← IO.getStdout
   if ops.size ≠ obs.size then
     out.putStrLn s!"mon C19 FAIL clause=stream-length ops={ops.size} obs={obs.size}"
     return
-  let mut known : Spec.C19.Known := []
+  let mut mon : Spec.C19.Mon := {}
   let mut tbl : Table := []
-  let mut n : Nat := 0
   let mut fails := 0
   let mut steps := 0
   for i in [0:ops.size] do
@@ -155,46 +190,103 @@ def runMonitor (ops obs : Array String) : IO Unit := do
     match t with
     | "record" :: "reset" :: r =>
       match parseTable r with
-      | some tb => tbl := tb; known := []; n := (natArg? o "n").getD 0
+      | some tb => tbl := tb; mon := Spec.C19.resetMon ((natArg? o "n").getD 0)
       | none => out.putStrLn s!"mon C19 FAIL clause=parse line={i+1}"; fails := fails + 1
     | _ =>
       match parseOp tbl t, natArg? o "n" with
       | some op, some n' =>
         steps := steps + 1
         let word := o.head?.getD ""
-        if word == "panic" then
-          out.putStrLn s!"mon C19 FAIL clause=panic line={i+1}"; fails := fails + 1
-        match op with
-        | .tx b msgs =>
-          match parsePairs (arg o "new") with
-          | none => out.putStrLn s!"mon C19 FAIL clause=obs-parse line={i+1}"; fails := fails + 1
-          | some ret =>
-            if word == "ok" then
-              if !(Spec.C19.createOk known (txHashOf b) msgs ret) then
-                out.putStrLn s!"mon C19 FAIL clause=create-readback-unique line={i+1}"; fails := fails + 1
-              known := Spec.C19.learn known ret
-            else
-              if !(ret.isEmpty && n' == n) then
-                out.putStrLn s!"mon C19 FAIL clause=rejected-but-stored line={i+1}"; fails := fails + 1
-        | .query id =>
-          match parseRec (arg o "rec") with
-          | none => out.putStrLn s!"mon C19 FAIL clause=obs-parse line={i+1}"; fails := fails + 1
-          | some rc =>
-            if !(Spec.C19.readOk known (hexOfId id) (arg o "found" == "true") rc) then
-              out.putStrLn s!"mon C19 FAIL clause=read-differs line={i+1}"; fails := fails + 1
-        | .queryAll =>
-          match parsePairs (arg o "recs") with
-          | none => out.putStrLn s!"mon C19 FAIL clause=obs-parse line={i+1}"; fails := fails + 1
-          | some d =>
-            if !(Spec.C19.dumpOk known d) then
-              out.putStrLn s!"mon C19 FAIL clause=record-lost-or-altered line={i+1}"; fails := fails + 1
-        | .nextBlock => pure ()
-        -- the store never shrinks
-        if n' < n then
-          out.putStrLn s!"mon C19 FAIL clause=store-shrank line={i+1}"; fails := fails + 1
-        n := n'
+        -- the payload of the observation line; one that does not parse is `Obs.none` (clause obs-parse)
+        let payload : Spec.C19.Obs :=
+          match op with
+          | .tx _ _ => match parsePairs (arg o "new") with
+            | some ret => .tx ret
+            | none => .none
+          | .query _ => match parseRec (arg o "rec") with
+            | some rc => .query (arg o "found" == "true") rc
+            | none => .none
+          | .queryAll => match parsePairs (arg o "recs") with
+            | some d => .dump d
+            | none => .none
+          | .nextBlock => .none
+        for c in Spec.C19.stepFails mon op word n' payload do
+          out.putStrLn s!"mon C19 FAIL clause={c} line={i+1}"; fails := fails + 1
+        mon := Spec.C19.advance mon op word n' payload
       | _, _ => out.putStrLn s!"mon C19 FAIL clause=parse line={i+1}"; fails := fails + 1
   out.putStrLn s!"mon C19 done steps={steps} fails={fails}"
+
+/-- C12 (record slice): judges the `export` / `reimport` lines of the implementation's stream and the
+reads that follow them, against the store the implementation itself has shown so far -/
+def runMonitorC12 (ops obs : Array String) : IO Unit := do
+  let out ← IO.getStdout
+  if ops.size ≠ obs.size then
+    out.putStrLn s!"mon C12 FAIL clause=stream-length ops={ops.size} obs={obs.size}"
+    return
+  let mut known : Spec.C12Record.Store := []
+  let mut issued : List String := []
+  let mut ctr : Nat := 0
+  let mut tbl : Table := []
+  let mut fails := 0
+  let mut steps := 0
+  for i in [0:ops.size] do
+    let t := tokens ops[i]!
+    let o := tokens obs[i]!
+    let word := o.head?.getD ""
+    match t with
+    | "record" :: "reset" :: r =>
+      match parseTable r with
+      | some tb => tbl := tb; known := []; issued := []; ctr := (natArg? o "ctr").getD 0
+      | none => out.putStrLn s!"mon C12 FAIL clause=parse line={i+1}"; fails := fails + 1
+    | ["record", "export"] =>
+      steps := steps + 1
+      match natArg? o "ctr", natArg? o "n", parseRecs (arg o "grecs") with
+      | some c, some n, some doc =>
+        for f in Spec.C12Record.checkExport known ctr word (arg o "validate") c n doc do
+          out.putStrLn s!"mon C12 FAIL {f} line={i+1}"; fails := fails + 1
+      | _, _, _ => out.putStrLn s!"mon C12 FAIL clause=obs-parse line={i+1}"; fails := fails + 1
+    | ["record", "reimport"] =>
+      steps := steps + 1
+      match natArg? o "ctr", natArg? o "n", parsePairs (arg o "recs") with
+      | some c, some n, some post =>
+        for f in Spec.C12Record.checkReimport known ctr word c n post do
+          out.putStrLn s!"mon C12 FAIL {f} line={i+1}"; fails := fails + 1
+        known := post; ctr := c
+      | _, _, _ => out.putStrLn s!"mon C12 FAIL clause=obs-parse line={i+1}"; fails := fails + 1
+    | _ =>
+      match parseOp tbl t, natArg? o "ctr", natArg? o "n" with
+      | some op, some c, some n =>
+        steps := steps + 1
+        if word == "panic" then
+          out.putStrLn s!"mon C12 FAIL clause=panic line={i+1}"; fails := fails + 1
+        match op with
+        | .tx _ _ =>
+          match parsePairs (arg o "new") with
+          | none => out.putStrLn s!"mon C12 FAIL clause=obs-parse line={i+1}"; fails := fails + 1
+          | some ret =>
+            if word == "ok" then
+              known := Spec.C12Record.learn known ret
+              issued := issued ++ ret.map (·.1)
+        | .query id =>
+          match parseRec (arg o "rec") with
+          | none => out.putStrLn s!"mon C12 FAIL clause=obs-parse line={i+1}"; fails := fails + 1
+          | some rc =>
+            for f in Spec.C12Record.checkQuery known issued (hexOfId id) (arg o "found" == "true") rc do
+              out.putStrLn s!"mon C12 FAIL {f} line={i+1}"; fails := fails + 1
+        | .queryAll =>
+          match parsePairs (arg o "recs") with
+          | none => out.putStrLn s!"mon C12 FAIL clause=obs-parse line={i+1}"; fails := fails + 1
+          | some d =>
+            for f in Spec.C12Record.checkDump known n d do
+              out.putStrLn s!"mon C12 FAIL {f} line={i+1}"; fails := fails + 1
+            known := d
+        | .nextBlock => pure ()
+        -- between genesis lines the store size and the counter follow the observed store
+        if n != known.length then
+          out.putStrLn s!"mon C12 FAIL clause=count-differs line={i+1}"; fails := fails + 1
+        ctr := c
+      | _, _, _ => out.putStrLn s!"mon C12 FAIL clause=parse line={i+1}"; fails := fails + 1
+  out.putStrLn s!"mon C12 done steps={steps} fails={fails}"
 
 def readLines (p : String) : IO (Array String) := do
   let c ← IO.FS.readFile p
@@ -204,7 +296,8 @@ def main (args : List String) : IO UInt32 := do
   match args with
   | ["model", ops] => runModel (← readLines ops); return 0
   | ["monitor", "C19", ops, obs] => runMonitor (← readLines ops) (← readLines obs); return 0
-  | _ => IO.eprintln "usage: model <ops> | monitor C19 <ops> <obs>"; return 2
+  | ["monitor", "C12", ops, obs] => runMonitorC12 (← readLines ops) (← readLines obs); return 0
+  | _ => IO.eprintln "usage: model <ops> | monitor C12|C19 <ops> <obs>"; return 2
 
 end Driver.Record
 
